@@ -26,13 +26,40 @@ type footprint struct {
 	whole map[string]bool
 	idx   map[string][]string
 	all   bool
+	// conditional targets ("modifies when c : t"): condition per (key, position in idx[key]) / per whole key; "" = always
+	idxCond   map[string][]string
+	wholeCond map[string]string
+	curCond   string
 }
 
 func (env *Env) footprintOf(c *Contract) (*footprint, error) {
 	e := env.e
-	fp := &footprint{whole: map[string]bool{}, idx: map[string][]string{}}
-	add := func(k, i string) { fp.idx[k] = append(fp.idx[k], i) }
-	for _, m := range c.Modifies {
+	fp := &footprint{whole: map[string]bool{}, idx: map[string][]string{}, idxCond: map[string][]string{}, wholeCond: map[string]string{}}
+	add := func(k, i string) {
+		fp.idx[k] = append(fp.idx[k], i)
+		fp.idxCond[k] = append(fp.idxCond[k], fp.curCond)
+	}
+	for mi, m := range c.Modifies {
+		fp.curCond = ""
+		if mi < len(c.ModWhen) && c.ModWhen[mi] != nil {
+			t, err := env.evalBool(c.ModWhen[mi])
+			if err != nil {
+				return nil, err
+			}
+			if t == "false" {
+				continue
+			}
+			if t != "true" {
+				fp.curCond = t
+			}
+		}
+		if call, ok := m.(*ECall); ok {
+			if fid, ok := call.Fun.(*EIdent); ok && fid.Name == "effects" {
+				// inside the function itself a call through the function value can do anything
+				fp.all = true
+				continue
+			}
+		}
 		switch x := m.(type) {
 		case *EIdent:
 			if x.Name == "everything" {
@@ -40,7 +67,7 @@ func (env *Env) footprintOf(c *Contract) (*footprint, error) {
 				continue
 			}
 			if _, ok := e.DB.GhostVars[x.Name]; ok {
-				fp.whole["G|"+x.Name] = true
+				fp.setWhole("G|" + x.Name)
 				continue
 			}
 			return nil, fmt.Errorf("unsupported modifies target %s", exprString(m))
@@ -108,7 +135,7 @@ func (env *Env) footprintOf(c *Contract) (*footprint, error) {
 						return nil, err
 					}
 					for _, lf := range e.TI.shape(gt) {
-						fp.whole["S|"+typeStr(gt)+"|"+lf.Path] = true
+						fp.setWhole("S|" + typeStr(gt) + "|" + lf.Path)
 					}
 					continue
 				}
@@ -123,7 +150,7 @@ func (env *Env) footprintOf(c *Contract) (*footprint, error) {
 						return nil, err
 					}
 					for _, k := range keys {
-						fp.whole[k[0]] = true
+						fp.setWhole(k[0])
 					}
 					continue
 				}
@@ -160,9 +187,11 @@ func (e *Enc) addMapKeys(fp *footprint, mt types.Type, m string) {
 		return
 	}
 	fp.idx[dk] = append(fp.idx[dk], m)
+	fp.idxCond[dk] = append(fp.idxCond[dk], fp.curCond)
 	for _, lf := range vleaves {
 		k, _ := mapValKey(mt, lf, ksort)
 		fp.idx[k] = append(fp.idx[k], m)
+		fp.idxCond[k] = append(fp.idxCond[k], fp.curCond)
 	}
 }
 
@@ -387,7 +416,7 @@ func (e *Enc) frameObligations(fr *Frame, final *State, fp *footprint, c *Contra
 	}
 	sort.Strings(keys)
 	for _, k := range keys {
-		if strings.HasPrefix(k, "RV|") || fp.whole[k] {
+		if strings.HasPrefix(k, "RV|") || (fp.whole[k] && fp.wholeCond[k] == "") {
 			continue
 		}
 		srt, ok := e.heapSort[k]
@@ -403,8 +432,15 @@ func (e *Enc) frameObligations(fr *Frame, final *State, fp *footprint, c *Contra
 		e.declSort(ks)
 		sk := e.fresh("frame!idx", ks)
 		var conds []string
-		for _, i := range fp.idx[k] {
-			conds = append(conds, not(eq(sk, i)))
+		for n, i := range fp.idx[k] {
+			if n < len(fp.idxCond[k]) && fp.idxCond[k][n] != "" {
+				conds = append(conds, not(and(fp.idxCond[k][n], eq(sk, i))))
+			} else {
+				conds = append(conds, not(eq(sk, i)))
+			}
+		}
+		if fp.whole[k] && fp.wholeCond[k] != "" {
+			conds = append(conds, not(fp.wholeCond[k]))
 		}
 		refIndexed := ks == "Int" && !strings.HasPrefix(k, "G|")
 		if strings.HasPrefix(k, "G|") {
@@ -500,4 +536,18 @@ func (e *Enc) fieldKeys(te *TypeExpr, name, pkgPath string, imports map[string]s
 		out = append(out, [2]string{k, srt})
 	}
 	return out, nil
+}
+
+func (fp *footprint) setWhole(k string) {
+	if fp.whole[k] && fp.wholeCond[k] == "" {
+		return // already unconditionally in the footprint
+	}
+	fp.whole[k] = true
+	if fp.curCond == "" {
+		fp.wholeCond[k] = ""
+	} else if c, ok := fp.wholeCond[k]; ok && c != "" {
+		fp.wholeCond[k] = or(c, fp.curCond)
+	} else {
+		fp.wholeCond[k] = fp.curCond
+	}
 }
